@@ -117,6 +117,7 @@ type Exec struct {
 	guard                *Term
 	spec                 int
 	rawInit              bool
+	lineScanners         map[*Loc]*lineScanner
 	rngCache             map[int]rng
 	varRng               map[int]rng
 	pathDeadline         time.Time
@@ -1003,6 +1004,12 @@ func (ex *Exec) run(fr *Frame) Value {
 						if isRet {
 							return ret
 						}
+						next = j
+						fr.skipPhis = true
+						break
+					}
+					if j, ok := ex.tryCondMerge(fr, block, in, c); ok {
+						ex.stats.Merged++
 						next = j
 						fr.skipPhis = true
 						break
